@@ -8,6 +8,7 @@ import (
 	"sort"
 
 	sdk "github.com/cosmos/cosmos-sdk/types"
+	tmproto "github.com/tendermint/tendermint/proto/tendermint/types"
 
 	service "github.com/irismod/service"
 	"github.com/irismod/service/types"
@@ -67,10 +68,64 @@ func (c *Chain) genSummary(gs *types.GenesisState) string {
 }
 
 func (c *Chain) PrepZeroHeight() Outcome {
-	return c.run(func(ctx sdk.Context) error {
+	out := c.run(func(ctx sdk.Context) error {
 		service.PrepForZeroHeightGenesis(ctx, c.K)
 		return nil
 	})
+	c.Prepared = c.Prepared || out.OK
+	return out
+}
+
+// Restart starts a new chain from the genesis exported after the preparation: the export goes through
+// the application codec as JSON and is imported into a fresh application whose bank holds what the old
+// chain's bank held (ordinary and module accounts); block heights start again at 1, the clock goes on.
+// The receiver becomes that new chain.
+func (c *Chain) Restart() (out Outcome) {
+	defer func() {
+		if r := recover(); r != nil {
+			out = Outcome{OK: false, Panic: true, Err: fmt.Sprint(r)}
+		}
+	}()
+	cdc := c.App.AppCodec()
+	gs := service.ExportGenesis(c.Ctx, c.K)
+	var gs2 types.GenesisState
+	cdc.MustUnmarshalJSON(cdc.MustMarshalJSON(gs), &gs2)
+	names := append([]string{}, c.Names...)
+	var extra []string
+	for n := range c.Addr {
+		known := n == "DEP" || n == "REQ" || n == "TAX"
+		for _, m := range names {
+			known = known || m == n
+		}
+		if !known {
+			extra = append(extra, n)
+		}
+	}
+	sort.Strings(extra)
+	names = append(names, extra...)
+	bal := map[string]int64{}
+	for _, n := range append(append([]string{}, names...), "DEP", "REQ", "TAX") {
+		bal[n] = c.App.BankKeeper.GetBalance(c.Ctx, c.Addr[n], Denom).Amount.Int64()
+	}
+	f := NewChain(c.Params, names, bal)
+	f.Names = append([]string{}, c.Names...)
+	for k, v := range c.CtxIDs {
+		f.CtxIDs[k] = v
+	}
+	for k, v := range c.CtxBytes {
+		f.CtxBytes[k] = v
+	}
+	f.NCtx, f.TxSeq = c.NCtx, c.TxSeq
+	if c.HasModSvc {
+		f.RegisterTestModuleService()
+	}
+	service.InitGenesis(f.Ctx, f.K, gs2)
+	f.Now = c.Now
+	f.Ctx = f.Ctx.WithBlockTime(realTime(f.Now)).WithBlockHeader(tmproto.Header{Height: f.Height, Time: realTime(f.Now)})
+	f.OnSub = c.OnSub
+	*c = *f
+	activeChain = c
+	return Outcome{OK: true}
 }
 
 func (c *Chain) freshLike() *Chain {
